@@ -3,5 +3,5 @@
 f=$1; n=$2
 head -n $n $f > /verif/build/_goal_tmp.v
 echo "Show. Abort All." >> /verif/build/_goal_tmp.v
-cd /verif/coq && coqc -Q . LK /verif/build/_goal_tmp.v 2>&1 | head -${3:-60}
+cd /verif/build/coqwork && coqc -Q . LK /verif/build/_goal_tmp.v 2>&1 | head -${3:-60}
 rm -f /verif/build/_goal_tmp.vo /verif/build/_goal_tmp.glob /verif/build/._goal_tmp.aux
